@@ -57,6 +57,7 @@ type Cfg struct {
 	CacheSize      int    `json:"cacheSize,omitempty"` // 0 => 1000
 	HFP            int    `json:"hfp,omitempty"`       // dispatcher hit-for-pass seconds (<=0: default 300)
 	ProxyTimeoutMs int    `json:"proxyTimeoutMs,omitempty"`
+	HFP2Unset      bool   `json:"hfp2Unset,omitempty"` // the second cache has no hitForPass of its own (default 300 s) while the first one has
 	Store          string `json:"store,omitempty"` // "", "mem", "lazy" (ignores TTLs), "fault"
 	TwoServers     bool   `json:"twoServers,omitempty"`
 	SharedCache    bool   `json:"sharedCache,omitempty"` // both servers are bound to the first cache
@@ -188,8 +189,11 @@ func applyCfgExtra(cfg Cfg, tag string, extra bool) (cacheNames [2]string) {
 		hfp = strconv.Itoa(cfg.HFP) + "s"
 	}
 	caches := []config.CacheConfig{}
-	for _, n := range cacheNames {
+	for i, n := range cacheNames {
 		cc := config.CacheConfig{Name: n, Size: size, HitForPass: hfp}
+		if i == 1 && cfg.HFP2Unset {
+			cc.HitForPass = ""
+		}
 		if cfg.Store != "" {
 			cc.Store = "verifmem://" + n
 		}
